@@ -1,0 +1,28 @@
+//go:build verif
+// +build verif
+
+package onchain
+
+import "context"
+
+// Verification hooks for the pipeline-termination property (build tag verif): thin exports.
+
+// VerifPipesMerge is merge (fan-in of the per-endpoint value channels).
+func VerifPipesMerge(ctx context.Context, cs ...chan interface{}) chan interface{} {
+	return merge(ctx, cs...)
+}
+
+// VerifPipesMergeError is mergeError (fan-in of the per-endpoint error channels).
+func VerifPipesMergeError(ctx context.Context, cs ...chan error) chan error {
+	return mergeError(ctx, cs...)
+}
+
+// VerifPipesFirst is first (first non-nil value of a merged stream).
+func VerifPipesFirst(ctx context.Context, source <-chan interface{}) <-chan interface{} {
+	return first(ctx, source)
+}
+
+// VerifPipesFirstEvent is firstEvent.
+func VerifPipesFirstEvent(ctx context.Context, source chan interface{}) chan interface{} {
+	return firstEvent(ctx, source)
+}
